@@ -96,6 +96,95 @@ fn run() {
     witness("end");
 }
 
+/// found missing by seed C08c: contract addresses are arbitrary strings when a custom address
+/// generator is plugged in.  Pairs of distinct addresses that are "close" (same up to letter case, one a
+/// prefix of the other, separators and NUL inside) must still get disjoint key spaces.
+struct Crafted(std::cell::RefCell<Vec<String>>);
+impl cw_multi_test::AddressGenerator for Crafted {
+    fn contract_address(
+        &self,
+        _api: &dyn cosmwasm_std::Api,
+        _storage: &mut dyn Storage,
+        _code_id: u64,
+        _instance_id: u64,
+    ) -> cw_multi_test::error::AnyResult<cosmwasm_std::Addr> {
+        Ok(cosmwasm_std::Addr::unchecked(self.0.borrow_mut().remove(0)))
+    }
+}
+
+const ADDR_PAIRS: [(&str, &str); 8] = [
+    ("Vault", "vault"),
+    ("vault", "VAULT"),
+    ("ab", "abc"),
+    ("abc", "ab"),
+    ("a/b", "a"),
+    ("k", "k/"),
+    ("x", "x\u{0}"),
+    ("contract_data/q", "q"),
+];
+
+fn run_addresses() {
+    use cw_multi_test::{AppBuilder, WasmKeeper};
+    let (a0, a1) = ADDR_PAIRS[choose(ADDR_PAIRS.len())];
+    let gen = Crafted(std::cell::RefCell::new(vec![a0.to_string(), a1.to_string()]));
+    let mut app = AppBuilder::new().with_wasm(WasmKeeper::new().with_address_generator(gen)).build(|_, _, _| {});
+    let user = addr("user");
+    let code = app.store_code(sc::contract());
+    sc::trace_clear();
+    // each instance writes in instantiate; the second one also overwrites the first one's key name
+    let k0 = match catch(|| app.instantiate_contract(code, user.clone(), &Script::new().write("owner", "first").write("only0", "1"), &[], "k0", None)) {
+        Ok(Ok(a)) => a,
+        Ok(Err(e)) => {
+            check_native("instantiate_succeeds", false, || format!("{:#}", e));
+            return;
+        }
+        Err(p) => {
+            failure("no_panic", "panic", p);
+            return;
+        }
+    };
+    let fresh = Script::new().then(Step::RangeOwn { tag: "fresh".into() }).write("owner", "second").write("only1", "1");
+    let k1 = match catch(|| app.instantiate_contract(code, user.clone(), &fresh, &[], "k1", None)) {
+        Ok(Ok(a)) => a,
+        Ok(Err(e)) => {
+            check_native("instantiate_succeeds", false, || format!("{:#}", e));
+            return;
+        }
+        Err(p) => {
+            failure("no_panic", "panic", p);
+            return;
+        }
+    };
+    check_native("generated_addresses_are_used", k0.as_str() == a0 && k1.as_str() == a1, || format!("{} {}", k0, k1));
+    let trace = sc::trace_take();
+    let fresh_seen = trace.iter().flat_map(|e| e.obs.iter()).find_map(|(t, o)| match (t.as_str(), o) {
+        ("fresh", Obs::Range(r)) => Some(r.clone()),
+        _ => None,
+    });
+    check_native("new_instance_starts_with_an_empty_key_space", fresh_seen == Some(vec![]), || format!("{:?}", fresh_seen));
+    let want0 = vec![(b"only0".to_vec(), b"1".to_vec()), (b"owner".to_vec(), b"first".to_vec())];
+    let want1 = vec![(b"only1".to_vec(), b"1".to_vec()), (b"owner".to_vec(), b"second".to_vec())];
+    let (d0, d1) = (app.dump_wasm_raw(&k0), app.dump_wasm_raw(&k1));
+    check_native("first_contract_holds_exactly_its_own_writes", d0 == want0, || format!("{:?}", d0));
+    check_native("second_contract_holds_exactly_its_own_writes", d1 == want1, || format!("{:?}", d1));
+    // a later write by one is invisible to the other, through every accessor
+    let r = catch(|| app.wasm_sudo(k1.clone(), &Script::new().write("owner", "third").then(Step::RangeOwn { tag: "own1".into() })));
+    if !matches!(r, Ok(Ok(_))) {
+        check_native("sudo_succeeds", false, || format!("{:?}", r.map(|x| x.map(|_| ()).map_err(|e| format!("{:#}", e)))));
+        return;
+    }
+    // (the querier validates addresses with the bech32 Api, so the raw query is not usable with these
+    // crafted addresses: dump and accessor are)
+    let d0 = app.dump_wasm_raw(&k0);
+    check_native("other_contracts_write_is_invisible_to_the_dump", d0 == want0, || format!("{:?}", d0));
+    let acc0 = app.contract_storage(&k0).get(b"owner");
+    check_native("other_contracts_write_is_invisible_to_the_accessor", acc0 == Some(b"first".to_vec()), || format!("{:?}", acc0));
+    witness("end_addresses");
+}
+
 pub fn scenarios(_tier: &str) -> Vec<Scenario> {
-    vec![Scenario::new("crafted_keys_two_contracts_same_code", &["end"], run)]
+    vec![
+        Scenario::new("crafted_keys_two_contracts_same_code", &["end"], run),
+        Scenario::new("crafted_address_pairs_from_a_custom_generator", &["end_addresses"], run_addresses),
+    ]
 }
